@@ -528,3 +528,26 @@ Proof.
   - intros [o [Ho Hk]]. exists o. split; [|exact Hk]. apply filter_In. split; [|exact Ho].
     destruct o; cbn [all_options In]; auto 6.
 Qed.
+
+(** ** the formatters of a variable are a SET: every formatter attached to any occurrence of a variable - whatever
+    other formatters the same variable already carries in this key, in this or in another locale - stays recorded
+    and contributes its family *)
+Lemma push_var_keeps : forall o k f vars,
+  option_of_formatter f = Some o -> vars_uses o (push_var k f vars) = true.
+Proof.
+  intros o k f vars H. rewrite push_var_uses. unfold uses_fmt. rewrite H.
+  assert (E : option_eqb o o = true) by (apply option_eqb_eq; reflexivity). rewrite E. apply orb_true_r.
+Qed.
+
+Lemma var_formatters_union : forall o ps v v' k f,
+  get_keys_inner ps v = Some v' -> In (PushVar k f) ps -> option_of_formatter f = Some o ->
+  iol_uses o v' = true.
+Proof.
+  intros o ps v v' k f H Hin Hf. rewrite (get_keys_inner_uses o _ _ _ H). apply orb_true_iff. right.
+  apply existsb_exists. exists (PushVar k f). split; [exact Hin|]. rewrite push_uses_var. unfold uses_fmt. rewrite Hf.
+  apply option_eqb_eq. reflexivity.
+Qed.
+
+(** ... and the mapping is monotone: what a leaf used before another locale is merged it still uses afterwards *)
+Lemma merge_keeps_uses : forall o lv u lv', merge_value u lv = Some lv' -> lv_uses o lv = true -> lv_uses o lv' = true.
+Proof. intros o lv u lv' H Hu. destruct (merge_value_props o lv u lv' H) as [E _]. rewrite E, Hu. reflexivity. Qed.
